@@ -7,17 +7,46 @@
 use super::*;
 use tokio::model;
 
+/// Smallest possible transport (the job future embeds the session types; CBMC pays for every
+/// field of that future each time it is created or moved).
+#[derive(Debug)]
+struct NullTransport;
+#[derive(Debug)]
+struct NullHandle;
+
+impl netconf::transport::Transport for NullTransport {
+    type SendHandle = NullHandle;
+    type RecvHandle = NullHandle;
+    fn split(self) -> (NullHandle, NullHandle) {
+        (NullHandle, NullHandle)
+    }
+}
+
+#[async_trait::async_trait]
+impl netconf::transport::SendHandle for NullHandle {
+    async fn send(&mut self, _data: bytes::Bytes) -> Result<(), netconf::Error> {
+        Err(netconf::Error::DequeueMessage)
+    }
+}
+
+#[async_trait::async_trait]
+impl netconf::transport::RecvHandle for NullHandle {
+    async fn recv(&mut self) -> Result<bytes::Bytes, netconf::Error> {
+        Err(netconf::Error::DequeueMessage)
+    }
+}
+
 #[derive(Debug, Clone)]
 struct NoTarget;
 
 impl Target for NoTarget {
-    type Transport = netconf::transport::Tls;
+    type Transport = NullTransport;
     async fn connect(self) -> anyhow::Result<crate::netconf::Client<Self, crate::netconf::Closed>> {
         Err(anyhow::anyhow!("unreachable in this harness"))
     }
 }
 
-const MAX_RUNS: usize = 4;
+const MAX_RUNS: usize = 3;
 
 struct Trace {
     runs: usize,
@@ -133,7 +162,7 @@ fn c19_backoff_and_period() {
         prev_delay = delay;
         i += 1;
     }
-    kani::cover!(!t.ok[0] && !t.ok[1] && !t.ok[2] && secs > 240, "three failures in a row, long period");
+    kani::cover!(!t.ok[0] && !t.ok[1] && secs > 240, "two failures in a row, long period");
     kani::cover!(!t.ok[0] && t.ok[1] && secs < 60, "failure then success, short period");
     kani::cover!(t.ok[0] && t.ok[1], "two successes");
 }
